@@ -251,6 +251,12 @@ func runC05(r *hx.Run, replay string) {
 			c05Eval(r, c05Case{Command: "ci", Config: "", File: f, Args: []string{"--fail-on", fo}})
 		}
 	}
+	// a change with no problem at all, under every threshold and both commands: the exit status is 0
+	// (seeded change C05-ci-worst-severity-starts-at-info: an empty summary looked like an Information problem)
+	for _, fo := range c05Sev {
+		c05Eval(r, c05Case{Command: "ci", Config: "", File: okFile, Args: []string{"--fail-on", fo}})
+		c05Eval(r, c05Case{Command: "lint", Config: "", File: okFile, Args: []string{"--fail-on", fo}})
+	}
 	// a configuration file whose name is not a regular expression: the verdict is the one for the same file under an
 	// ordinary name (and there is one)
 	for _, name := range []string{"pint(ci.hcl", "a[b.hcl", "c+d*.hcl", "p?{2,1}.hcl"} {
